@@ -5,9 +5,9 @@ from . import common as C
 
 PLAN = {
     # property: (design ref, [(kind, quick count, thorough count)])
-    "C11": ("§7/C11", [("mesh", 420, 5000), ("lz4", 60, 500)]),
+    "C11": ("§7/C11", [("mesh", 420, 2400), ("lz4", 60, 400)]),
     "C12": ("§7/C12", [("message", 720, 7200), ("reflect", 800, 8000)]),
-    "C13": ("§7/C13", [("image", 420, 5000), ("lz4", 50, 400)]),
+    "C13": ("§7/C13", [("image", 420, 2400), ("lz4", 50, 300)]),
 }
 
 TRUSTED = {
